@@ -365,8 +365,15 @@ pub fn gc(args: &[String]) -> Result<Value> {
     let mut checked = 0;
     let mut corpus: Vec<(String, String)> = GC_CORPUS.iter().map(|(a, b)| (a.to_string(), b.to_string())).collect();
     for (n, t) in crate::entities::CORPUS { corpus.push((format!("entities/{n}"), t.to_string())); }
+    // `gc random N [SEED]`: N generated modules (random reference graphs over every entity kind) instead of the hand-written corpus
+    let random = args.first().map(|a| a == "random").unwrap_or(false);
+    if random {
+        let n: usize = args.get(1).and_then(|s| s.parse().ok()).unwrap_or(300);
+        let seed: u64 = args.get(2).and_then(|s| s.parse().ok()).unwrap_or(1);
+        corpus = random_graph_modules(n, seed);
+    }
     for (name, text) in corpus {
-        if !args.is_empty() && !args.iter().any(|a| *a == name) { continue; }
+        if !random && !args.is_empty() && !args.iter().any(|a| *a == name) { continue; }
         checked += 1;
         let wasm = wat::parse_str(&text).with_context(|| format!("corpus module {name}"))?;
         let w2 = wasm.clone();
@@ -406,4 +413,98 @@ pub fn gc(args: &[String]) -> Result<Value> {
     }
     failures.truncate(8);
     Ok(json!({"violated": !failures.is_empty(), "modules_checked": checked, "failures": failures}))
+}
+
+
+/// modules whose entities refer to each other at random: every entity kind, every kind of reference (calls, global reads / writes,
+/// ref.func in bodies, global initialisers and element items, table / memory operands, segment operands, active segments on local and
+/// imported tables, declared segments), a random set of exports and an optional start function
+pub fn random_graph_modules(n: usize, seed: u64) -> Vec<(String, String)> {
+    let mut st = seed.wrapping_mul(0x9e37_79b9_7f4a_7c15) | 1;
+    let mut rnd = move |k: usize| -> usize { st ^= st << 13; st ^= st >> 7; st ^= st << 17; if k == 0 { 0 } else { (st % k as u64) as usize } };
+    let mut out = vec![];
+    let mut tries = 0;
+    while out.len() < n && tries < n * 20 {
+        tries += 1;
+        let (nif, nf) = (rnd(3), 1 + rnd(6));
+        let (nig, ng) = (rnd(2), rnd(5));
+        let (nit, nt) = (rnd(2), rnd(3));
+        let nm = rnd(3);
+        let (nd, ne) = (rnd(5), rnd(5));
+        let mut t = String::from("(module (type $v (func))\n");
+        for i in 0..nif { t.push_str(&format!(" (import \"e\" \"f{i}\" (func $if{i}))\n")); }
+        for i in 0..nig { t.push_str(&format!(" (import \"e\" \"g{i}\" (global $ig{i} i32))\n")); }
+        for i in 0..nit { t.push_str(&format!(" (import \"e\" \"t{i}\" (table $it{i} 4 funcref))\n")); }
+        let funcs: Vec<String> = (0..nif).map(|i| format!("$if{i}")).chain((0..nf).map(|i| format!("$f{i}"))).collect();
+        let tables: Vec<String> = (0..nit).map(|i| format!("$it{i}")).chain((0..nt).map(|i| format!("$t{i}"))).collect();
+        let mems: Vec<String> = (0..nm).map(|i| format!("$m{i}")).collect();
+        let mut ref_funcd: Vec<String> = vec![];
+        // globals: mutable i32 (const or imported-global initialiser) or funcref (ref.func initialiser)
+        let mut globals_i32: Vec<String> = vec![];
+        let mut gl = String::new();
+        for i in 0..ng {
+            match rnd(3) {
+                0 => { let f = funcs[rnd(funcs.len())].clone(); gl.push_str(&format!(" (global $g{i} funcref (ref.func {f}))\n")); }
+                1 if nig > 0 => { gl.push_str(&format!(" (global $g{i} (mut i32) (global.get $ig{}))\n", rnd(nig))); globals_i32.push(format!("$g{i}")); }
+                _ => { gl.push_str(&format!(" (global $g{i} (mut i32) (i32.const {i}))\n")); globals_i32.push(format!("$g{i}")); }
+            }
+        }
+        for i in 0..nt { t.push_str(&format!(" (table $t{i} 4 funcref)\n")); }
+        for i in 0..nm { t.push_str(&format!(" (memory $m{i} 1)\n")); }
+        t.push_str(&gl);
+        let offset = |rnd: &mut dyn FnMut(usize) -> usize| -> String { if nig > 0 && rnd(3) == 0 { format!("(global.get $ig{})", rnd(nig)) } else { format!("(i32.const {})", rnd(3)) } };
+        let mut datas: Vec<String> = vec![];
+        for i in 0..nd {
+            if !mems.is_empty() && rnd(2) == 0 { let m = mems[rnd(mems.len())].clone(); let o = offset(&mut rnd); t.push_str(&format!(" (data $d{i} (memory {m}) (offset {o}) \"x\")\n")); }
+            else { t.push_str(&format!(" (data $d{i} \"y\")\n")); }
+            datas.push(format!("$d{i}"));
+        }
+        let mut elems: Vec<String> = vec![];
+        for i in 0..ne {
+            let k = 1 + rnd(2);
+            let items_f: Vec<String> = (0..k).map(|_| funcs[rnd(funcs.len())].clone()).collect();
+            let as_exprs = rnd(2) == 0;
+            let items = if as_exprs { format!("funcref {}", items_f.iter().map(|f| if rnd(4) == 0 { "(ref.null func)".to_string() } else { format!("(ref.func {f})") }).collect::<Vec<_>>().join(" ")) } else { format!("func {}", items_f.join(" ")) };
+            match rnd(3) {
+                0 if !tables.is_empty() => { let tb = tables[rnd(tables.len())].clone(); let o = offset(&mut rnd); t.push_str(&format!(" (elem $e{i} (table {tb}) (offset {o}) {items})\n")); }
+                1 => t.push_str(&format!(" (elem $e{i} declare {items})\n")),
+                _ => t.push_str(&format!(" (elem $e{i} {items})\n")),
+            }
+            elems.push(format!("$e{i}"));
+        }
+        for i in 0..nf {
+            t.push_str(&format!(" (func $f{i}"));
+            for _ in 0..rnd(4) {
+                match rnd(12) {
+                    0 => t.push_str(&format!(" (call {})", funcs[rnd(funcs.len())])),
+                    1 if !globals_i32.is_empty() => t.push_str(&format!(" (drop (global.get {}))", globals_i32[rnd(globals_i32.len())])),
+                    2 if !globals_i32.is_empty() => t.push_str(&format!(" (global.set {} (i32.const 1))", globals_i32[rnd(globals_i32.len())])),
+                    3 if nig > 0 => t.push_str(&format!(" (drop (global.get $ig{}))", rnd(nig))),
+                    4 if !tables.is_empty() => t.push_str(&format!(" (drop (table.size {}))", tables[rnd(tables.len())])),
+                    5 if !tables.is_empty() => t.push_str(&format!(" (call_indirect {} (type $v) (i32.const 0))", tables[rnd(tables.len())])),
+                    6 if !mems.is_empty() => t.push_str(&format!(" (drop (i32.load {} (i32.const 0)))", mems[rnd(mems.len())])),
+                    7 if !mems.is_empty() && !datas.is_empty() => t.push_str(&format!(" (memory.init {} {} (i32.const 0) (i32.const 0) (i32.const 0))", mems[rnd(mems.len())], datas[rnd(datas.len())])),
+                    8 if !datas.is_empty() => t.push_str(&format!(" (data.drop {})", datas[rnd(datas.len())])),
+                    9 if !tables.is_empty() && !elems.is_empty() => t.push_str(&format!(" (table.init {} {} (i32.const 0) (i32.const 0) (i32.const 0))", tables[rnd(tables.len())], elems[rnd(elems.len())])),
+                    10 if !elems.is_empty() => t.push_str(&format!(" (elem.drop {})", elems[rnd(elems.len())])),
+                    11 => { let f = funcs[rnd(funcs.len())].clone(); t.push_str(&format!(" (drop (ref.func {f}))")); ref_funcd.push(f); }
+                    _ => t.push_str(" (nop)"),
+                }
+            }
+            t.push_str(")\n");
+        }
+        if !ref_funcd.is_empty() { t.push_str(&format!(" (elem declare func {})\n", ref_funcd.join(" "))); }
+        // roots
+        let mut any = false;
+        for i in 0..nf { if rnd(3) == 0 { t.push_str(&format!(" (export \"f{i}\" (func $f{i}))\n")); any = true; } }
+        for i in 0..ng { if rnd(4) == 0 { t.push_str(&format!(" (export \"g{i}\" (global $g{i}))\n")); any = true; } }
+        for i in 0..nt { if rnd(4) == 0 { t.push_str(&format!(" (export \"t{i}\" (table $t{i}))\n")); any = true; } }
+        for i in 0..nm { if rnd(4) == 0 { t.push_str(&format!(" (export \"m{i}\" (memory $m{i}))\n")); any = true; } }
+        if rnd(4) == 0 { t.push_str(&format!(" (start $f{})\n", rnd(nf))); any = true; }
+        if !any { t.push_str(" (export \"f0\" (func $f0))\n"); }
+        t.push(')');
+        let ok = wat::parse_str(&t).ok().map(|w| validates(&w).is_ok()).unwrap_or(false);
+        if ok { out.push((format!("random-{}-{}", seed, out.len()), t)); }
+    }
+    out
 }
